@@ -320,6 +320,9 @@ def run(res):
     bins = core.build([VARIANT])
     rng = core.rng_for(res.seed, "c18")
     specs = gen_specs(rng, 900000 if thorough else 120000) + malformed(rng, 250000 if thorough else 30000)
+    # a conversion prefix in front of well-formed specifications (the reference rejects all of them; what the crate does with
+    # the rest of the text is pinned by the known class)
+    specs += ["!" + c + sp for sp in specs[:(6000 if thorough else 1200)] for c in "srabx"]
     items = []
     specs = [s for s in specs if sane(s)]
     def rand_int():
